@@ -67,6 +67,16 @@ def gen_conn_intents(seed, c, n, profile, registry_first=None):
     return out[:n]
 
 
+def gen_deep_intents(seed, c):
+    """> 702 complete sync / done / delete_id cycles, so that one client id is recycled past `zz` into three-letter labels;
+    nothing else allocates ids on this connection, so the cycle keeps hitting the same slot"""
+    rng = random.Random('%d/deep/%d' % (seed, c))
+    out = [['act', c, 'get_registry', 0, 0, rng.randrange(1 << 30)]]
+    for _ in range(3 * rng.randint(704, 740)):
+        out.append(['act', c, 'churn', rng.randrange(1 << 30), rng.randrange(1 << 30), rng.randrange(1 << 30)])
+    return out
+
+
 def interleave(rng, per_conn, chatter_rate=0.0, tick=True, late_start=True):
     """order-preserving merge chosen by the scheduler; ticks and chatter inserted"""
     pos = [0] * len(per_conn)
